@@ -179,8 +179,57 @@ func runTmoBacklog(ctx *Ctx, busy, k int) {
 	ctx.R.Op(fmt.Sprintf("backlog %d %d", busy, k), "ok")
 }
 
+// runTmoCancelRunning: Cancel of a future whose function is RUNNING (it stays in its body until the scenario ends),
+// issued from another goroutine; meanwhile somebody else schedules and cancels a function of their own.  Whatever
+// that Cancel does — it may well wait for the running function — it must not hold up anybody else: the other
+// caller's Call and Cancel return at once.
+func runTmoCancelRunning(ctx *Ctx) {
+	ctx.R.Case(2)
+	gate := make(chan struct{})
+	started := make(chan struct{})
+	ctx.R.Enter()
+	a := timeout.Call(func() {
+		close(started)
+		select {
+		case <-gate:
+		case <-time.After(5 * time.Second):
+		}
+	}, 0)
+	ctx.R.Leave()
+	select {
+	case <-started:
+	case <-time.After(2 * time.Second):
+		ctx.R.Quiet("mon C13-every-live-future-fires", "a function scheduled with delay 0 was not started within 2 s")
+		close(gate)
+		return
+	}
+	cancelled := make(chan struct{})
+	go func() { a.Cancel(); close(cancelled) }()
+	time.Sleep(2 * time.Millisecond)
+	other := make(chan struct{})
+	go func() {
+		b := timeout.Call(func() {}, time.Hour)
+		b.Cancel()
+		close(other)
+	}()
+	select {
+	case <-other:
+	case <-time.After(1500 * time.Millisecond):
+		ctx.R.Quiet("mon C12-cancel-touches-nobody-else", "while one goroutine cancels a future whose function is still running, another caller's Call + Cancel of its own function did not return within 1.5 s: the Cancel holds up the whole dispatcher")
+	}
+	close(gate)
+	select {
+	case <-cancelled:
+	case <-time.After(2 * time.Second):
+		ctx.R.Quiet("mon C12-cancel-touches-nobody-else", "Cancel of a future whose function had been running did not return within 2 s after that function returned")
+	}
+	ctx.R.Nontrivial("cancel of a running function")
+	ctx.R.Op("cancel-running", "ok")
+}
+
 func runTmoAPI(ctx *Ctx) {
 	r := ctx.Rnd
+	runTmoCancelRunning(ctx)
 	for _, bk := range [][2]int{{1, 3}, {1, 2}, {2, 2}, {2, 4}, {3, 2}, {1, 6}} {
 		runTmoBacklog(ctx, bk[0], bk[1])
 	}
